@@ -396,8 +396,27 @@ class Checker:
         rep.ob('R16.1', init, 'root insertions in the constructor', counts == [1],
                'constructor inserts the root %s times on some path' % counts)
         # root is the start pose: place(PathNode(origin)) on the `origin is not None` path
+        one_def = {}
+        for n_ in ast.walk(init.node):
+            if isinstance(n_, ast.Assign) and len(n_.targets) == 1 and isinstance(n_.targets[0], ast.Name):
+                one_def.setdefault(n_.targets[0].id, []).append(n_.value)
+
+        def is_origin(e, depth=0):
+            # the origin parameter, directly, named once, or as the arm of a conditional (expression / lowered statement) for a given origin
+            if isinstance(e, ast.IfExp):
+                return is_origin(e.body, depth) or is_origin(e.orelse, depth)
+            if isinstance(e, ast.Name) and e.id == init.params[1]:
+                return True
+            if isinstance(e, ast.Name) and depth < 3 and e.id in one_def:
+                return any(is_origin(v, depth + 1) for v in one_def[e.id])
+            return False
+
+        def is_root(e):
+            if isinstance(e, ast.IfExp):
+                return is_root(e.body) or is_root(e.orelse)
+            return isinstance(e, ast.Call) and src(e.func) == 'PathNode' and len(e.args) >= 1 and is_origin(e.args[0])
         ok = any(isinstance(c, ast.Call) and isinstance(c.func, ast.Attribute) and c.func.attr == 'place' and c.args
-                 and src(c.args[0]) == 'PathNode(%s)' % init.params[1] for c in ast.walk(init.node))
+                 and is_root(c.args[0]) for c in ast.walk(init.node))
         rep.ob('R16.1', init, 'root node is the start pose', ok, 'the root placed by the constructor is not PathNode(<origin>)')
         place = self._m(self.tree, 'place')
 
